@@ -1050,6 +1050,8 @@ def job_hist(cfg):
 def _job_hist(cfg):
     res = Result()
     for word, pad in cfg["words"]:
+        if relieve_maps():      # between words only: a word always runs against one uninterrupted cache history
+            res.guard("jit_caches_dropped_between_words(map limit)", 1)
         for k, case, out in run_word(cfg, word, pad):
             info = out["info"]
             res.add(states=info["L"], transitions=info["L"], evaluations=3 * info["L"], traces=info["L"])
@@ -1328,7 +1330,29 @@ def make_jobs(tier, seed):
     return jobs
 
 
+def relieve_maps(limit=20000):
+    """Every XLA compilation maps executable memory; a long-lived worker that compiles a fresh program per call (the
+    history words do, on purpose) runs into vm.max_map_count and segfaults.  Between jobs / between words - never inside
+    a word - drop all compiled programs once the process holds too many mappings."""
+    try:
+        with open("/proc/self/maps") as f:
+            nmaps = sum(1 for _ in f)
+    except OSError:
+        return False
+    if nmaps <= limit:
+        return False
+    import gc
+
+    jax = _lib()[0]
+    _JIT_INIT.clear()
+    _TRACED.clear()
+    jax.clear_caches()
+    gc.collect()
+    return True
+
+
 def job(j):
+    relieve_maps()
     fam, cfg = j
     if fam == "fast":
         return job_fast(cfg)
